@@ -18,6 +18,13 @@ case "$VARIANT" in
     SIM_FLAGS="-std=c++20 -O2 -g1 -fno-access-control $COMMON_DEFS -DVERIF_VARIANT_NAME=plain"
     LD_FLAGS="$WRAP -pthread -ldl"
     ;;
+  vg)
+    # for valgrind: no -march=native (memcheck does not know every host instruction)
+    CXX=g++
+    ENG_FLAGS="-std=c++20 -O1 -g $COMMON_DEFS"
+    SIM_FLAGS="-std=c++20 -O1 -g -fno-access-control $COMMON_DEFS -DVERIF_VARIANT_NAME=vg"
+    LD_FLAGS="$WRAP -pthread -ldl"
+    ;;
   asan)
     CXX=clang++
     SAN="-fsanitize=address,bounds,null -fno-sanitize-recover=bounds,null -fno-omit-frame-pointer"
